@@ -147,8 +147,8 @@ theorem make_srep_sim (S : SigScheme) (g : Gen.OnlineKey) (hv : g.vers_wire_byte
     exact Res.Sim.refl _
 
 /-- generated responder of a model responder (`E.S`, `E.H` are the module parameters) -/
-def toGenResponder (r : Responder) : Gen.Responder :=
-  ⟨r.ver, ⟨r.onl, Version.supportedWire⟩, r.cert, r.requests, toGenTree r.ver r.tree⟩
+def toGenResponder (r : Responder) (g : Gen.GreaseQ := default) : Gen.Responder :=
+  ⟨r.ver, ⟨r.onl, Version.supportedWire⟩, r.cert, r.requests, toGenTree r.ver r.tree, g⟩
 
 /-- `Responder::make_response` (INDX is a u32) -/
 theorem make_response_sim (S : SigScheme) (H : Bytes → Bytes) (g : Gen.Responder) (srep : Msg) (cert path : Bytes)
